@@ -44,8 +44,16 @@ func c07Doc(r *rand.Rand, variant int) (*sbom.Document, string) {
 	gen.Populate(r, doc.Metadata.ProtoReflect(), o)
 	desc := "populated"
 	n := r.Intn(7)
+	if variant%12 == 11 {
+		n = 5 + r.Intn(3)
+	}
 	ids := make([]string, n)
 	for i := range ids {
+		if variant%12 == 11 {
+			ids[i] = fmt.Sprintf("c%d", i)
+			doc.NodeList.Nodes = append(doc.NodeList.Nodes, &sbom.Node{Id: ids[i], Name: ids[i], Version: "1", PrimaryPurpose: []sbom.Purpose{sbom.Purpose_LIBRARY}})
+			continue
+		}
 		switch r.Intn(10) {
 		case 0:
 			ids[i] = ""
@@ -101,6 +109,31 @@ func c07Doc(r *rand.Rand, variant int) (*sbom.Document, string) {
 				doc.NodeList.RootElements = []string{ids[2]}
 			} else {
 				doc.NodeList.RootElements = []string{ids[0]}
+			}
+		}
+	case 11:
+		desc = "random-cyclic-containment-below-several-top-level-components"
+		// the root contains two or three nodes; the others are tied together by random contains edges with cycles
+		if n >= 4 {
+			doc.NodeList.Edges = nil
+			doc.NodeList.RootElements = []string{ids[0]}
+			tops := 2 + r.Intn(2)
+			if tops > n-2 {
+				tops = n - 2
+			}
+			doc.NodeList.Edges = append(doc.NodeList.Edges, &sbom.Edge{From: ids[0], Type: sbom.Edge_contains, To: append([]string{}, ids[1:1+tops]...)})
+			for i := 1; i < n; i++ {
+				for j := 1 + tops; j < n; j++ {
+					if i != j && r.Intn(3) == 0 {
+						doc.NodeList.Edges = append(doc.NodeList.Edges, &sbom.Edge{From: ids[i], Type: sbom.Edge_contains, To: []string{ids[j]}})
+					}
+				}
+			}
+			// close at least one cycle among the non-top nodes
+			if n-1-tops >= 2 {
+				a, b := ids[1+tops], ids[2+tops]
+				doc.NodeList.Edges = append(doc.NodeList.Edges, &sbom.Edge{From: a, Type: sbom.Edge_contains, To: []string{b}}, &sbom.Edge{From: b, Type: sbom.Edge_contains, To: []string{a}})
+				doc.NodeList.Edges = append(doc.NodeList.Edges, &sbom.Edge{From: ids[1], Type: sbom.Edge_contains, To: []string{a}}, &sbom.Edge{From: ids[2], Type: sbom.Edge_contains, To: []string{b}})
 			}
 		}
 	case 7:
@@ -197,7 +230,7 @@ func c07Normalise(b []byte) (string, error) {
 func init() {
 	core.Register(&core.Prop{
 		ID: "C07", Level: "exploration",
-		Rule: "each case builds 4 Document values (variant k mod 12 forced for the first: nil metadata, nil node list, both nil, NewDocument, no roots, many roots, cyclic containment, dangling root, nil maps/slices, every subset of DocumentType's optional fields, non-numeric version, plain populated; " +
+		Rule: "each case builds 4 Document values (variant k mod 12 forced for the first: nil metadata, nil node list, both nil, NewDocument, no roots, many roots, cyclic containment, random cyclic containment below several top-level components (serialized 11 times), dangling root, nil maps/slices, every subset of DocumentType's optional fields, non-numeric version, plain populated; " +
 			"reflection-populated fields, unknown enum numbers, empty/duplicate/generated ids, dangling edge endpoints, arbitrary text incl. invalid UTF-8; half of them passed through proto.Marshal/Unmarshal) and serializes them in all 8 registered formats (CycloneDX 1.0-1.5, SPDX 2.3, SPDX 3 beta) " +
 			"in the schedule d0,d1,d0,d2,d3,d0 inside a supervised child: recover() catches panics, the parent attributes process deaths, the CPU/heap watchdog decides hangs; the three outputs of d0 per format must be equal after removing creation timestamps and sorting all arrays; " +
 			"the serialized document must be unchanged. distinct = hash of (variant, d0); non-trivial = d0 has nodes or lacks metadata/node list.",
@@ -233,6 +266,10 @@ func c07Case(c *core.C) {
 	}
 	snap := gen.Clone(docs[0])
 	schedule := []int{0, 1, 0, 2, 3, 0}
+	if c.K%12 == 6 || c.K%12 == 11 {
+		// cyclic containment: the outcome may depend on map iteration order, so repeat more often
+		schedule = []int{0, 1, 0, 0, 2, 0, 0, 3, 0, 0, 0, 0, 0, 0}
+	}
 	for _, f := range c07Formats {
 		var outs0 []string
 		var errs0 []string
